@@ -17,6 +17,7 @@
 #include "llvm/ADT/StringExtras.h"
 #include <map>
 #include <set>
+#include <regex>
 #include <string>
 #include <vector>
 #include <sstream>
@@ -27,6 +28,8 @@
 using namespace llvm;
 
 static std::set<std::string> gStubs;          // defined functions whose bodies are dropped (become externals)
+static std::vector<std::pair<std::regex,std::string>> gModelRes;   // model entries whose name is 're:<regex>': the matching DEFINED functions are stubbed and given this body (template instantiations)
+static const std::string *modelFor(const std::string &name);
 static std::vector<std::string> gKeepPrefixes = {"__CPROVER_", "nondet_", "__VERIFIER_"};
 static std::map<std::string,std::string> gModels;  // external function name -> C body
 static std::vector<std::string> gPreludes;
@@ -86,7 +89,7 @@ struct Emitter {
     }
     return gv;
   }
-  bool isExternalFn(const Function *f) { return f->isDeclaration() || f->isVarArg() || gStubs.count(f->getName().str()); }
+  bool isExternalFn(const Function *f) { return f->isDeclaration() || f->isVarArg() || gStubs.count(f->getName().str()) || (!gModelRes.empty() && modelFor(f->getName().str()) != nullptr && !gModels.count(f->getName().str())); }
   std::string gname(const GlobalValue *gv) {
     gv = resolveAlias(gv);
     auto it = gvName.find(gv);
@@ -1013,19 +1016,25 @@ struct Emitter {
     std::string out = pre + td + "\n" + protos + "\n" + gdecl + "\n" + gdefs + "\n" + body;
     for (const Function &F : M) {
       if (F.isIntrinsic() || !gvName.count(&F) || !isExternalFn(&F)) continue;
-      auto mi = gModels.find(F.getName().str());
-      if (mi == gModels.end()) { if (!keepName(F.getName())) unmodelled.insert(F.getName().str()); continue; }
+      const std::string *mb = modelFor(F.getName().str());
+      if (!mb) { if (!keepName(F.getName())) unmodelled.insert(F.getName().str()); continue; }
       FunctionType *ft = F.getFunctionType();
       out += cty(ft->getReturnType()) + " " + gname(&F) + "(";
       unsigned i = 0;
       for (Type *p : ft->params()) { if (i) out += ", "; out += cty(p) + " a" + std::to_string(i); i++; }
       if (ft->isVarArg()) out += i ? ", ..." : ""; else if (!i) out += "void";
-      out += ")\n{\n  " + mi->second + "\n}\n\n";
+      out += ")\n{\n  " + *mb + "\n}\n\n";
     }
     out += "void ir2c_global_ctors(void)\n{\n" + ctorCalls + "}\n";
     return out;
   }
 };
+
+static const std::string *modelFor(const std::string &name) {
+  auto mi = gModels.find(name); if (mi != gModels.end()) return &mi->second;
+  for (auto &pr : gModelRes) if (std::regex_match(name, pr.first)) return &pr.second;
+  return nullptr;
+}
 
 int main(int argc, char **argv) {
   std::string in, outp, report;
@@ -1046,7 +1055,8 @@ int main(int argc, char **argv) {
       FILE *f = fopen(argv[++i], "r"); if (!f) die("cannot open models file");
       char buf[8192]; while (fgets(buf, sizeof buf, f)) { std::string s = buf; while (!s.empty() && isspace((unsigned char)s.back())) s.pop_back();
         if (s.empty() || s[0] == '#') continue; size_t sp = s.find_first_of(" \t"); if (sp == std::string::npos) die("bad model line: " + s);
-        gModels[s.substr(0, sp)] = s.substr(s.find_first_not_of(" \t", sp)); }
+        std::string key = s.substr(0, sp), bodyS = s.substr(s.find_first_not_of(" \t", sp));
+        if (key.rfind("re:", 0) == 0) gModelRes.emplace_back(std::regex(key.substr(3)), bodyS); else gModels[key] = bodyS; }
       fclose(f);
     }
     else if (a == "--threads") gThreads = true;
